@@ -344,3 +344,41 @@ func HarnessPeerPings() {
 	verif.Quiesce()
 	verif.Reach("peer-pings-done")
 }
+
+// HarnessStalledThenDrained: the peer does not read for a while (bounded
+// connection capacity: writers queue up behind a stalled write; any armed timer
+// may fire meanwhile), then drains everything. It finds exactly one complete
+// response per request and nothing else — no empty or partial message.
+func HarnessStalledThenDrained() {
+	h := &H{release: make(chan struct{})}
+	srv := jsonrpc.NewServer()
+	srv.Register("H", h)
+	pc := verif.DialRaw(srv, nil)
+	const n = 3
+	for i := 1; i <= n; i++ {
+		b, _ := json.Marshal(map[string]interface{}{"jsonrpc": "2.0", "id": i, "method": "H.Unary", "params": []interface{}{10 * i}})
+		pc.Send(b)
+	}
+	verif.Quiesce() // responses pile up behind the first one that cannot be flushed
+	seen := map[float64]int{}
+	for i := 0; i < n; i++ {
+		b, ok := pc.Recv()
+		verif.Assert(ok, "connection-stays-up")
+		if !ok {
+			break
+		}
+		var f anyFrame
+		verif.Assert(json.Unmarshal(b, &f) == nil && f.Jsonrpc == "2.0", "every-message-is-one-complete-json-rpc-frame")
+		id, _ := f.ID.(float64)
+		var r int64
+		verif.Assert(json.Unmarshal(f.Result, &r) == nil && r == int64(10*id)+1, "response-carries-its-own-calls-result")
+		seen[id]++
+	}
+	for i := 1; i <= n; i++ {
+		verif.Assert(seen[float64(i)] == 1, "exactly-one-response-per-request")
+	}
+	monitors("")
+	pc.CloseGraceful()
+	verif.Quiesce()
+	verif.Reach("stalled-then-drained-done")
+}
